@@ -14,6 +14,7 @@ mod c12;
 mod c13;
 mod c14;
 mod c15;
+mod c16;
 mod c17;
 mod c19;
 mod c20;
@@ -72,6 +73,7 @@ fn main() {
         "C13" => c13::run(report),
         "C14" => c14::run(report),
         "C15" => c15::run(report),
+        "C16" => c16::run(report),
         "C17" => c17::run(report),
         "C19" => c19::run(report),
         "C20" => c20::run(report),
